@@ -823,6 +823,33 @@ def _scale_axis(e, cellname):
     return None
 
 
+def _factors_provably_flat(fn, e):
+    """In `cell * v` / `cell @ diag(v)`: is every name in v either the never re-bound replication parameter or a local whose single definition contains no reshape / newaxis / [:, None]
+    (so that the judgement 'scales columns' does not rest on an unseen re-shaping)?"""
+    rebound = {t.id for st in fn.all_nodes() if isinstance(st, (ast.Assign, ast.AugAssign)) for t in (st.targets if isinstance(st, ast.Assign) else [st.target]) if isinstance(t, ast.Name)}
+    counts = {}
+    for st in fn.all_nodes():
+        if isinstance(st, ast.Assign):
+            for t in st.targets:
+                if isinstance(t, ast.Name):
+                    counts[t.id] = counts.get(t.id, 0) + 1
+    for y in ast.walk(e):
+        if isinstance(y, ast.Call) and call_name(y) in ("reshape", "expand_dims", "atleast_2d", "vstack", "column_stack"):
+            return False
+        if isinstance(y, ast.Subscript) and any(ast.unparse(z) in ("None", "np.newaxis") for z in ast.walk(y.slice)):
+            return False
+        if isinstance(y, ast.Name) and y.id in fn.params and y.id in rebound:
+            # a re-bound parameter: its new value must itself be visibly flat
+            defs = [st.value for st in fn.all_nodes() if isinstance(st, ast.Assign) and any(isinstance(t, ast.Name) and t.id == y.id for t in st.targets)]
+            for d in defs:
+                if any(isinstance(z, ast.Call) and call_name(z) in ("reshape", "expand_dims", "atleast_2d") for z in ast.walk(d)) or \
+                        any(isinstance(z, ast.Subscript) and any(ast.unparse(w) in ("None", "np.newaxis") for w in ast.walk(z.slice)) for z in ast.walk(d)):
+                    return False
+        if isinstance(y, ast.Name) and y.id not in fn.params and y.id not in ("np", "numpy", "self") and counts.get(y.id, 0) != 1:
+            return False
+    return True
+
+
 def C_axis_replicate(repo, clause):
     fn = repo.fn("Atoms.replicate")
     obs = []
@@ -839,12 +866,30 @@ def C_axis_replicate(repo, clause):
                   "supercell cell `%s` scales the %s of the cell matrix by the replication factors; lattice vectors are the ROWS (positions.dot(cell), matmul(cell.T, multipliers)), "
                   "so %s" % (ast.unparse(st.value), {"rows": "rows", "cols": "COLUMNS", "cols_of_T": "rows (transposed result)", "rows_T": "rows (transposed)"}.get(axis, axis),
                              "each lattice vector is multiplied by its own factor" if ok else "vector k gets its x/y/z components multiplied by factors a/b/c: wrong for any tilted cell with unequal factors"),
-                  slot="cell-scaling"))
+                  slot="cell-scaling", positive="robust" if (axis == "cols" and _factors_provably_flat(fn, e)) else None))
     factors = [n for n in ast.walk(e) if isinstance(n, ast.Name) and n.id == fn.params[1]]
     obs.append(Ob("Caxis", clause, fn, st, bool(factors), "the scaling vector is the replication-factor parameter %s" % fn.params[1], slot="cell-scaling-factors"))
     # image translation: contraction over the lattice axis
     tr = [c for c in calls_in(fn) if isinstance(c.func, ast.Attribute) and c.func.attr == "translate"]
+    # a displacement computed from the atoms' own coordinates moves every atom by ITS OWN vector: the copies are then no longer the original atoms at i*A + j*B + k*C
+    # (and 1 x 1 x 1 is no longer the identity), whatever lattice arithmetic produced the vectors
+    per_atom = []
+    for c in tr:
+        try:
+            av = expand(fn, c.args[0], stop_names=[]) if c.args else None
+        except Exception:
+            av = c.args[0] if c.args else None
+        if av is not None and any(isinstance(y, ast.Attribute) and y.attr == "positions" for y in ast.walk(av)):
+            per_atom.append(c)
+    per_atom += [st_ for st_ in fn.own_nodes() if isinstance(st_, ast.AugAssign) and isinstance(st_.target, ast.Attribute) and st_.target.attr == "positions" and isinstance(st_.op, ast.Mod)]
+    for c in per_atom:
+        obs.append(Ob("Caxis", clause, fn, c, False,
+                      "`%s` in replicate displaces the atoms by vectors computed from their own coordinates (a wrap): an atom stored outside the cell no longer appears at original + i*A + j*B + k*C, "
+                      "1 x 1 x 1 replication is not the identity, and bonded neighbours on either side of a face end up a cell apart" % ast.unparse(c)[:70], slot="per-atom-displacement", positive="robust"))
+    tr = [c for c in tr if c not in per_atom]
     if len(tr) != 1:
+        if per_atom:
+            return obs
         raise AnalysisError("C12: image translation not found")
     a = expand(fn, tr[0].args[0], stop_names=[])
     how = ast.unparse(a)
@@ -982,6 +1027,35 @@ def C_axis_windows(repo, clause, only_images=False):
     ok = len(margs) == 3 and all(l == [-1, 0, 1] for l in lits)
     obs.append(Ob("Caxis", clause, uo, mg[0] if mg else uo.node, ok, "image multipliers are {-1, 0, 1} on each of three axes (27 images): %s" % lits, slot="27-images",
                   positive=len(margs) == 3 and all(l is not None for l in lits) or (len(mg) == 1 and len(margs) != 3 and not any(isinstance(a, ast.Starred) for a in mg[0].args))))
+    # the grid reaches the product unrestricted: a re-binding `m = m[...]` (slice, mask, index list) hands back a SUBSET of the 27 images.  Under an option of the helper
+    # this matters at the call sites that switch the option on: every consumer (search windows, bond detection, replication of start atoms) relies on all 27
+    if len(mg) == 1:
+        mstmt = uo.stmt_of(mg[0])
+        mname = mstmt.targets[0].id if isinstance(mstmt, ast.Assign) and len(mstmt.targets) == 1 and isinstance(mstmt.targets[0], ast.Name) else None
+        restr = [x for x in uo.own_nodes() if mname and isinstance(x, ast.Assign) and len(x.targets) == 1 and isinstance(x.targets[0], ast.Name) and x.targets[0].id == mname
+                 and x is not mstmt and isinstance(x.value, ast.Subscript) and isinstance(x.value.value, ast.Name) and x.value.value.id == mname
+                 and not (isinstance(x.value.slice, ast.Slice) and x.value.slice.lower is None and x.value.slice.upper is None and x.value.slice.step is None)]
+        for x in restr:
+            flags = [t.id for t, pol, k in norm_guards(uo, x) if pol and isinstance(t, ast.Name) and t.id in uo.params]
+            if not flags:
+                obs.append(Ob("Caxis", clause, uo, x, False, "`%s` keeps only a subset of the 27 image multipliers: every consumer of the offsets misses the images that are dropped" % ast.unparse(x)[:60],
+                              slot="27-images-unrestricted", positive="robust"))
+                continue
+            flag = flags[0]
+            pos = uo.params.index(flag)
+            users = []
+            for f_ in repo.all_fns():
+                for c_ in [y for y in f_.own_nodes() if isinstance(y, ast.Call) and call_name(y) == uo.name]:
+                    v_ = kwarg(c_, flag) if kwarg(c_, flag) is not None else (c_.args[pos] if len(c_.args) > pos else None)
+                    if v_ is not None and const_value(v_) not in (False, 0) :
+                        users.append((f_, c_))
+            for f_, c_ in users:
+                obs.append(Ob("Caxis", clause, f_, c_, False,
+                              "`%s` in %s switches on `%s`, under which %s hands back only a subset of the 27 image offsets (`%s`): with a subset, a pair whose closest image lies on the "
+                              "dropped side - the lower-index atom near the high face of the cell - is never brought together" % (ast.unparse(c_)[:60], f_.qualname, flag, uo.name, ast.unparse(x)[:50]),
+                              slot="27-images-unrestricted:%s" % f_.qualname, positive="robust"))
+            if not users:
+                obs.append(Ob("Caxis", clause, uo, x, True, "an option `%s` restricts the images, no call site in the package switches it on" % flag, slot="27-images-unrestricted"))
     from .common import vec_mat_form
     forms = []
     for n_ in uo.own_nodes():
@@ -1822,7 +1896,7 @@ def C_wrap_modulus(repo, clause, modules=("mofun.mofun", "mofun.atoms", "mofun.d
     return obs
 
 
-def C_fractional_wrap(repo, clause, modules=("mofun.mofun", "mofun.atoms")):
+def C_fractional_wrap(repo, clause, modules=("mofun.mofun", "mofun.atoms"), min_sites=1):
     """Wrapping through fractional coordinates: with lattice vectors as the ROWS of the cell, fractional = positions . inverse(cell) (or its transpose,
     inverse(cell.T) . positions.T) and back = fractional . cell.  The matrix chain in front of every `% 1` and of the product that restores Cartesian
     coordinates is normalised (dot / matmul / @ / .T / inv / solve) and compared with that form."""
@@ -1898,5 +1972,9 @@ def C_fractional_wrap(repo, clause, modules=("mofun.mofun", "mofun.atoms")):
                                       "Cartesian coordinates restored as fractional . cell in %s: %s" % (fn.qualname, "yes" if ok_b else
                                                                                                        "NO - `%s` multiplies with the transposed (or inverted) cell" % ast.unparse(b.value)[:60]),
                                       slot="frac-to-cart:%s" % fn.qualname, positive=not ok_b))
-    floor("Cfrac", "fractional wraps through a matrix product", n_sites, 1)
+    floor("Cfrac", "fractional wraps through a matrix product", n_sites, min_sites)
+    if min_sites == 0:
+        m0 = repo.module(modules[0])
+        obs.append(Ob("Cfrac", clause, FileObj(m0.relpath, modules[0]), m0.tree.body[0], True, "%d wraps through fractional coordinates found in %s (each one judged above)" % (n_sites, ", ".join(modules)),
+                      construct="fractional wrap inventory", slot="inventory"))
     return obs
